@@ -36,6 +36,10 @@ def make_scratch():
     base = os.environ.get("VERIF_TMP") or tempfile.gettempdir()
     return tempfile.mkdtemp(prefix="verif-scratch-", dir=base)
 
+# go-statement arguments that turned out to be untyped constants (found from the
+# compiler's complaint about the temporary that held them): not hoisted
+INLINE_ARGS = set()
+
 def prepare_tree(scratch, instrument=True):
     """copy /repo's working tree, add the seam packages and hook files, instrument."""
     dst = os.path.join(scratch, "repo")
@@ -53,7 +57,8 @@ def prepare_tree(scratch, instrument=True):
     rep = {}
     if instrument:
         ins = ensure_instrumenter()
-        r = subprocess.run([ins, dst], stdout=subprocess.PIPE, stderr=subprocess.PIPE, text=True)
+        r = subprocess.run([ins, dst], stdout=subprocess.PIPE, stderr=subprocess.PIPE, text=True,
+                           env=dict(os.environ, VERIF_INLINE_ARGS=",".join(sorted(INLINE_ARGS))))
         if r.returncode != 0:
             raise BuildError("instrumenter failed:\n" + r.stdout + r.stderr)
         try:
@@ -88,6 +93,18 @@ def build_harness(scratch, race=False, tags="verifsim"):
     env = goenv()
     r = run(cmd, env=env, cwd=os.path.join(VERIF, "harness"))
     if r.returncode != 0:
+        # `go f(Const)` was rewritten to `verifA0 := Const; ... verifF(verifA0)`: for an
+        # untyped constant the temporary has the default type and may not fit
+        # the parameter. Re-instrument those sites with the constant left in place.
+        import re as _re
+        new = set()
+        for m in _re.finditer(r"/repo/(\S+?\.go):(\d+)(?::\d+)?: [^\n]*\bverifA(\d+)\b", r.stdout):
+            new.add("%s:%s:%s" % (m.group(1), m.group(2), m.group(3)))
+        new -= INLINE_ARGS
+        if new and len(INLINE_ARGS) < 200:
+            INLINE_ARGS.update(new)
+            prepare_tree(scratch)
+            return build_harness(scratch, race=race, tags=tags)
         raise BuildError("harness build failed:\n" + r.stdout[-6000:])
     return binp
 
